@@ -29,12 +29,16 @@ PLANS = {
                 "polarity heavy, dense 85-110%, obstruction heavy, large magnitude) x random efforts and legalization ordering "
                 "parameters; a case is non-trivial when legalize returned and moved >= 1 cell or threw; distinct = distinct "
                 "feature signatures {split rows, gaps, obstruction on a row, multi-row, turned, far start, #polarity kinds, "
-                "utilisation bucket, size bucket, outcome, trivially-feasible}",
+                "utilisation bucket, size bucket, outcome, trivially-feasible}. Part c01.components: the two component legalizers "
+                "(TetrisLegalizer, AbacusLegalizer) constructed directly from the free row segments and cells Legalizer would hand "
+                "them, once with the row list as produced and once reversed or shuffled: same outcome, bit-identical result, and "
+                "every cell reported placed lies in free segments of the list without overlapping another",
         "assumptions": ["legality oracle written from the property text (independent of library helpers)",
                         "g++ ASan/UBSan runtimes; library assert()s compiled in (asan, fast builds)"],
         "trusted_base": ["harness/circ.hpp legality oracle", "g++ 12 sanitizer runtimes"],
         "runs": flow("c01", C01_PROFILES, "asan", 4000, 12000) + flow("c01", C01_PROFILES, "fast", 0, 60000)
                 + flow("c01", COMB, "asan", 600, 3000) + [R("h_flow", "asan", "c01.staged", 3000, 12000)]
+                + [R("h_flow", "asan", "c01.components", 6000, 10000), R("h_flow", "fast", "c01.components", 0, 50000)]
                 + flow("c01", CROWDED, "asan", 1500, 6000) + flow("c01", CROWDED, "fast", 0, 40000)
                 + flow("c01", FARAWAY, "asan", 2000, 8000) + flow("c01", FARAWAY, "fast", 0, 40000),
     },
